@@ -1,141 +1,80 @@
-(** C01 - a list compared position by position: its delta is the concatenation of
-    the children's deltas and of the trailing removals / additions. *)
+(** C01 - the round trip for a list compared position by position, given the
+    round trip for its paired children. *)
 From Coq Require Import List ZArith NArith Bool Arith Lia Permutation.
 Import ListNotations.
 From DD Require Import Base.PyStr Base.Value Base.ValueFacts Path.PathModel Diff.Tree Diff.DiffModel
   Diff.DiffFacts Diff.DiffFaithful Delta.DeltaModel Delta.DeltaFacts Delta.DeltaLocal Delta.DeltaEntries
-  Delta.DeltaStruct Delta.DeltaRun Delta.DeltaGuard Delta.DeltaGood Delta.DeltaCompose.
+  Delta.DeltaStruct Delta.DeltaRun Delta.DeltaGuard Delta.DeltaGood Delta.DeltaCompose Delta.DeltaListNode.
 
-Lemma flat_map_map_nil {A B C} (g : A -> B) (f : B -> list C) l : (forall p, f (g p) = []) -> flat_map f (map g l) = [].
-Proof. intros H. induction l as [|p l IH]; cbn; [reflexivity|]. rewrite H, IH. reflexivity. Qed.
-Lemma sg_map_none {A} sel (g : A -> entry) l : (forall p, sel (g p) = None) -> sg sel (map g l) [] = [].
-Proof. intros H. unfold sg. induction l as [|p l IH]; cbn; [reflexivity|]. rewrite H. exact IH. Qed.
+Lemma repl_app_l {A} i (v : A) l1 l2 : i < length l1 -> repl i v (l1 ++ l2) = repl i v l1 ++ l2.
+Proof.
+  intros H. unfold repl. rewrite firstn_app, skipn_app.
+  replace (i - length l1) with 0 by lia. replace (S i - length l1) with 0 by lia.
+  cbn [firstn skipn]. rewrite app_nil_r, <- app_assoc. reflexivity.
+Qed.
 
-Definition idx_from (i : nat) (K : pkey) : Prop := exists j, K = PIdx j /\ i <= j.
+Lemma all2_nth {A} (f : A -> A -> bool) (b ys : list A) :
+  length b = length ys ->
+  (forall i x y, nth_error b i = Some x -> nth_error ys i = Some y -> f x y = true) -> all2 f b ys = true.
+Proof.
+  revert ys; induction b as [|x b IH]; intros [|y ys] L H; try discriminate L; [reflexivity|].
+  cbn. rewrite (H 0 x y eq_refl eq_refl). cbn. apply IH; [cbn in L; lia|].
+  intros i x0 y0 Hx Hy. apply (H (S i)); assumption.
+Qed.
 
-Section ListNode.
-Variable hatom : atom -> pystr.
-Variable udiff : pystr -> pystr -> pystr.
-Variable ops : path -> list value -> list value -> list opcode.
-Variable c : cfg.
+(* own_run from the subsequence of own items *)
+Lemma own_run_filter (own : item -> bool) l :
+  own_run (list item) (fun q x q' => q = x :: q') own (filter own l) l [].
+Proof.
+  induction l as [|x l IH]; cbn; [constructor|].
+  destruct (own x) eqn:O.
+  - eapply own_run_own; [exact O|reflexivity|exact IH].
+  - apply own_run_child; [exact O|exact IH].
+Qed.
+
+Section OwnSteps.
 Variable conv : ty -> value -> option value.
-Variables bidir always : bool.
-Variables T1 T2 : value.
-Variable q : path.
-Notation diff := (diff hatom udiff ops nos nos c).
-Notation E := (E hatom udiff ops c).
-Notation D := (D hatom udiff ops c conv bidir always T1 T2).
-Notation td := (to_delta conv bidir always ops T1 T2).
+Variable bidir : bool.
+Notation istep := (istep conv bidir).
 
-Definition GL (i : nat) (xs ys : list value) := go_list nos diff q q xs ys i.
-Definition DL (i : nat) (xs ys : list value) : delta := td (mutual (fst (GL i xs ys))) (snd (GL i xs ys)).
-
-Definition add_entry (p : nat * value) : entry :=
-  mkEntry KIterAdd (snoc q (PIdx (fst p))) (snoc q (PIdx (fst p))) None (Some (snd p)) None.
-Definition rem_entry (p : nat * value) : entry :=
-  mkEntry KIterRem (snoc q (PIdx (fst p))) (snoc q (PIdx (fst p))) (Some (snd p)) None None.
-
-Lemma added_from_eq ys j : added_from nos ys j q q = map add_entry (combine (seq j (length ys)) ys).
-Proof. revert j; induction ys as [|y ys IH]; intros j; cbn; [reflexivity|]. rewrite IH. reflexivity. Qed.
-Lemma removed_from_eq xs j : removed_from nos xs j q q = map rem_entry (combine (seq j (length xs)) xs).
-Proof. revert j; induction xs as [|x xs IH]; intros j; cbn; [reflexivity|]. rewrite IH. reflexivity. Qed.
-
-Lemma in_combine_seq {A} j (l : list A) k x : In (k, x) (combine (seq j (length l)) l) -> j <= k < j + length l /\ nth_error l (k - j) = Some x.
+Lemma own_rem_step b0 v po e : py_eqv v v = true ->
+  istep (mkSt (VList (b0 ++ [v])) po e) (IRem [PKey (ik (length b0))] v) = mkSt (VList b0) po e.
 Proof.
-  revert j; induction l as [|y l IH]; intros j; cbn; [tauto|].
-  intros [H|H].
-  - inversion H; subst. split; [lia|]. rewrite Nat.sub_diag. reflexivity.
-  - apply IH in H as [H1 H2]. split; [lia|]. replace (k - j) with (S (k - S j)) by lia. exact H2.
+  intros R. cbn [istep]. unfold remove_one. cbn [removelast last key_atom resolve root].
+  rewrite get_item_list_ik. rewrite nth_error_app2 by lia. rewrite Nat.sub_diag. cbn [nth_error].
+  rewrite R. cbn [negb].
+  unfold del_elem. cbn [resolve root is_tuple untuple upd post errs].
+  rewrite del_item_list_ik by (rewrite app_length; cbn; lia).
+  rewrite firstn_app, Nat.sub_diag, firstn_all. cbn [firstn]. rewrite app_nil_r.
+  rewrite skipn_all2 by (rewrite app_length; cbn; lia). rewrite app_nil_r.
+  unfold verify. destruct bidir; [rewrite R|]; reflexivity.
 Qed.
 
-Lemma added_under ys i : Forall (fun e => under q (idx_from i) (ep1 e)) (added_from nos ys i q q).
+Lemma own_add_step b v po e :
+  istep (mkSt (VList b) po e) (IAdd true [PKey (ik (length b))] (Some v)) = mkSt (VList (b ++ [v])) po e.
 Proof.
-  rewrite added_from_eq. apply Forall_forall. intros e He. apply in_map_iff in He as ([k y] & <- & Hk).
-  apply in_combine_seq in Hk as [Hk _]. exists (PIdx k), []. split; [exists k; split; [reflexivity|lia]|reflexivity].
+  cbn [istep]. unfold add_one. cbn [removelast last key_atom resolve root int_of_atom ik].
+  rewrite Z.ltb_irrefl. cbn [andb].
+  unfold set_new_value. cbn [removelast last key_atom resolve root is_tuple untuple upd post errs].
+  change (AInt (Z.of_nat (length b))) with (ik (length b)). rewrite set_item_list_append. reflexivity.
 Qed.
-Lemma removed_under xs i : Forall (fun e => under q (idx_from i) (ep1 e)) (removed_from nos xs i q q).
-Proof.
-  rewrite removed_from_eq. apply Forall_forall. intros e He. apply in_map_iff in He as ([k y] & <- & Hk).
-  apply in_combine_seq in Hk as [Hk _]. exists (PIdx k), []. split; [exists k; split; [reflexivity|lia]|reflexivity].
-Qed.
+End OwnSteps.
 
-Lemma GL_under xs : forall ys i,
-  Forall (fun e => under q (idx_from i) (ep1 e)) (fst (GL i xs ys)) /\ Forall (under q (idx_from i)) (snd (GL i xs ys)).
+(* ---- facts about the trailing items ---- *)
+Lemma combine_seq_snoc {A} i (t : list A) v :
+  combine (seq i (length (t ++ [v]))) (t ++ [v]) = combine (seq i (length t)) t ++ [(i + length t, v)].
 Proof.
-  induction xs as [|x xs IH]; intros ys i.
-  - cbn. split; [apply added_under|constructor].
-  - destruct ys as [|y ys]; [cbn [GL go_list fst snd]; split; [apply removed_under|constructor]|].
-    unfold GL. cbn [go_list]. unfold app2. cbn [fst snd].
-    destruct (diff_pref hatom udiff ops nos nos c x y (snoc q (PIdx i)) (snoc q (PIdx i))) as [A B].
-    destruct (IH ys (S i)) as [C D0]. split; apply Forall_app; split.
-    + eapply Forall_impl; [|exact A]. intros e He. apply pref_under in He.
-      eapply under_weaken; [|exact He]. intros K ->. exists i. split; [reflexivity|lia].
-    + eapply Forall_impl; [|exact C]. intros e He. eapply under_weaken; [|exact He].
-      intros K (j & -> & Hj). exists j. split; [reflexivity|lia].
-    + eapply Forall_impl; [|exact B]. intros e He. apply ppref_under in He.
-      eapply under_weaken; [|exact He]. intros K ->. exists i. split; [reflexivity|lia].
-    + eapply Forall_impl; [|exact D0]. intros e He. eapply under_weaken; [|exact He].
-      intros K (j & -> & Hj). exists j. split; [reflexivity|lia].
+  revert i; induction t as [|x t IH]; intros i; cbn.
+  - rewrite Nat.add_0_r. reflexivity.
+  - rewrite IH. cbn. rewrite Nat.add_succ_r. reflexivity.
 Qed.
 
-Lemma DL_cons i x xs y ys :
-  DL i (x :: xs) (y :: ys) = dapp (D x y (snoc q (PIdx i))) (DL (S i) xs ys).
+Lemma tail_rem_snoc i t v : tail_rem i (t ++ [v]) = tail_rem i t ++ [IRem [PKey (ik (i + length t))] v].
+Proof. unfold tail_rem. rewrite combine_seq_snoc, map_app. reflexivity. Qed.
+Lemma tail_add_cons i y t : tail_add i (y :: t) = IAdd true [PKey (ik i)] (Some y) :: tail_add (S i) t.
+Proof. reflexivity. Qed.
+
+Lemma tail_rem_In i t x : In x (tail_rem i t) -> exists j v, x = IRem [PKey (ik j)] v /\ i <= j < i + length t /\ nth_error t (j - i) = Some v.
 Proof.
-  unfold DL, DeltaGood.D, DeltaGood.E. unfold GL at 1 2. cbn [go_list]. unfold app2. cbn [fst snd].
-  fold (GL (S i) xs ys).
-  destruct (diff_pref hatom udiff ops nos nos c x y (snoc q (PIdx i)) (snoc q (PIdx i))) as [A B].
-  destruct (GL_under xs ys (S i)) as [C D0].
-  set (ea := fst (diff x y (snoc q (PIdx i)) (snoc q (PIdx i)))) in *.
-  set (ra := snd (diff x y (snoc q (PIdx i)) (snoc q (PIdx i)))) in *.
-  assert (UA : Forall (fun e => under q (fun K => K = PIdx i) (ep1 e)) ea).
-  { eapply Forall_impl; [|exact A]. intros e He. apply pref_under. exact He. }
-  assert (URA : Forall (under q (fun K => K = PIdx i)) ra).
-  { eapply Forall_impl; [|exact B]. intros e He. apply ppref_under. exact He. }
-  assert (Dj : forall K1 K2 : pkey, K1 = PIdx i -> idx_from (S i) K2 -> K1 <> K2).
-  { intros K1 K2 -> (j & -> & Hj) E0. inversion E0. lia. }
-  assert (Dk : forall K1 K2 : pkey, K1 = PIdx i -> idx_from (S i) K2 -> key_atom K1 <> key_atom K2).
-  { intros K1 K2 -> (j & -> & Hj) E0. cbn in E0. inversion E0. lia. }
-  rewrite mutual_app.
-  - apply td_app.
-    + intros e He. eapply in_paths_split_l; [|exact D0|exact Dj].
-      pose proof (mutual_under q _ ea UA) as M. eapply Forall_forall in M; eassumption.
-    + intros e He. eapply in_paths_split_r; [|exact URA|exact Dj].
-      pose proof (mutual_under q _ _ C) as M. eapply Forall_forall in M; eassumption.
-    + intros e1 e2 H1 H2. eapply under_npath_neq; [| |exact Dk].
-      * pose proof (mutual_under q _ ea UA) as M. eapply Forall_forall in M; eassumption.
-      * pose proof (mutual_under q _ _ C) as M. eapply Forall_forall in M; eassumption.
-  - intros e1 e2 H1 H2 _ _ E0.
-    eapply Forall_forall in UA; [|exact H1]. eapply Forall_forall in C; [|exact H2].
-    apply (under_npath_neq q _ _ _ _ UA C Dk). rewrite E0. reflexivity.
-Qed.
-
-
-(* ---- the trailing items ---- *)
-Definition tail_rem (i : nat) (xs : list value) : list item :=
-  map (fun p => IRem [PKey (ik (fst p))] (snd p)) (combine (seq i (length xs)) xs).
-Definition tail_add (i : nat) (ys : list value) : list item :=
-  map (fun p => IAdd true [PKey (ik (fst p))] (Some (snd p))) (combine (seq i (length ys)) ys).
-
-Lemma strip_snoc k : skipn (length q) (npath (snoc q (PIdx k))) = [PKey (ik k)].
-Proof. unfold snoc. rewrite skipn_npath. reflexivity. Qed.
-
-Lemma mutual_added ys i : mutual (added_from nos ys i q q) = added_from nos ys i q q.
-Proof.
-  apply mutual_id. intros a r Ha Hr Ka Kr. rewrite added_from_eq in Hr. apply in_map_iff in Hr as (p & <- & _). discriminate.
-Qed.
-Lemma mutual_removed xs i : mutual (removed_from nos xs i q q) = removed_from nos xs i q q.
-Proof.
-  apply mutual_id. intros a r Ha Hr Ka Kr. rewrite removed_from_eq in Ha. apply in_map_iff in Ha as (p & <- & _). discriminate.
-Qed.
-
-Lemma sbase_DL_nil_l i ys :
-  sbase (length q) (DL i [] ys) = [[]; []; []; []; []; []; tail_add i ys; []; []].
-Proof.
-  unfold DL, GL. cbn [go_list fst snd]. rewrite mutual_added, added_from_eq.
-  unfold sbase, base, p1, p2, p3, p4, p5, p6, p7, p8, p9.
-  rewrite td_sadd, td_srem. unfold to_delta. cbn [d_val d_type d_dadd d_drem d_iadd d_irem d_ops map].
-  set (l := combine (seq i (length ys)) ys). unfold tail_add. fold l.
-  rewrite !flat_map_map_nil by reflexivity. rewrite !sg_map_none by reflexivity. cbn [map].
-  Show.
-Abort.
-End ListNode.
+  unfold tail_rem. intros H. apply in_map_iff in H as ([j v] & <- & Hj). apply in_combine_seq in Hj as [H1 H2].
+  exists j, v. split; [reflexivity|]. split; [exact H1|exact H2]. Show. Unshelve. Show.
